@@ -2,7 +2,7 @@
     findings F2, F3, F6 reproduce in the model when the corresponding hypothesis is dropped) and
     satisfiable (a non-trivial good history). *)
 From Coq Require Import ZArith List Bool Lia.
-From Stk Require Import Lib.U Gen.SrcTimers T.Model T.Spec T.Inv T.Rel.
+From Stk Require Import Lib.U Gen.SrcTimers T.Model T.Spec T.Inv T.InvProofs T.Rel.
 Import ListNotations.
 Local Open Scope Z_scope.
 
@@ -76,3 +76,7 @@ Lemma good_ops_outputs :
     Some (RFired []); Some (RFired [5]); Some (ROptNs (Some 32778000000000)); Some (RFired []);
     Some (ROptNs (Some 32807000000000)); Some (RFired [4; 3]); Some (ROptNs None); Some (RNs 150000000000000) ].
 Proof. vm_compute. reflexivity. Qed.
+
+(** the same history is admissible in the sense of the no-panic theorem (T/InvProofs.v) *)
+Lemma good_ops_ops_ok : Z.of_nat (length good_ops) <= HMAX /\ InvProofs.ops_ok t_init good_ops.
+Proof. vm_compute. repeat split; try reflexivity; try discriminate. Qed.
